@@ -189,6 +189,9 @@ func c16Enumerate(tier string, yield func(any)) {
 			yield(&c16Case{Kind: "count", NP: np, PP: pp})
 		}
 	}
+	// one run, three entities, the same authority text under the kinds dns, mail and url (top level / admission level)
+	yield(&c16Case{Kind: "samename", PP: 0})
+	yield(&c16Case{Kind: "samename", PP: 1})
 	// registration numbers over the PrintableString repertoire and outside it, alone and next to the other members
 	for v := range c16RegNums {
 		for np := 0; np < 2; np++ {
@@ -363,8 +366,47 @@ func c16RegNum(x *engine.Ctx, c *c16Case) {
 	x.Outcome("regnum: out-of-repertoire value written as PrintableString by the encoder")
 }
 
+// c16SameName: three entities of one run whose admission trees are identical except for the GeneralName kind of one
+// authority, which carries the same text in all three (dns, mail, url). Each certificate shows its own kind.
+func c16SameName(x *engine.Ctx, c *c16Case) {
+	d := &Dir{}
+	for _, kind := range []string{"dns", "mail", "url"} {
+		gn := &refcfg.GeneralName{Type: kind, Name: "authority.example.org"}
+		adm := &refcfg.Admission{Admissions: []refcfg.Admissions{{ProfessionInfos: []refcfg.ProfessionInfo{{ProfessionItems: []string{"Item"}, RegistrationNumber: refcfg.S("1-2")}}}}}
+		if c.PP == 0 {
+			adm.AdmissionAuthority = gn
+		} else {
+			adm.Admissions[0].AdmissionAuthority = gn
+		}
+		d.Certs = append(d.Certs, &refcfg.CertCfg{Path: "ent-" + kind + ".yaml", Subject: "CN=adm " + kind, KeyAlg: "P-224", Exts: []refcfg.Ext{{Kind: refcfg.KADM, ADM: adm}}})
+	}
+	g := Generate(d, nil, drive.Default)
+	x.Nontrivial(fmt.Sprintf("samename %d", c.PP))
+	if !g.Res.OK() {
+		x.Violation("C16/run-failed same-name", fmt.Sprintf("%v %s", g.Res.Err(), g.Res.Panic))
+		return
+	}
+	for _, cfg := range d.Certs {
+		diffs, _, err := g.CompareEntity(d, AliasOf(cfg), "")
+		if err != nil {
+			x.Violation("C16/no-certificate", err.Error())
+			return
+		}
+		for _, df := range diffs {
+			if df.Owner == "C16" {
+				x.Violation(df.Class+" same-text-under-three-kinds", AliasOf(cfg)+": "+short(df.Detail, 400))
+			}
+		}
+	}
+	x.Outcome("same name under three kinds")
+}
+
 func c16Exec(x *engine.Ctx, cc any) {
 	c := cc.(*c16Case)
+	if c.Kind == "samename" {
+		c16SameName(x, c)
+		return
+	}
 	if c.Kind == "count" {
 		c16Counts(x, c)
 		return
@@ -514,7 +556,7 @@ func init() {
 	register(&engine.Check{
 		ID:          "C16",
 		Level:       "exploration",
-		Rule:        "one admission x one profession info over the full product: top-level authority {none,ip,dns,mail,url} x admission authority (5) x admission naming authority subsets of {oid,url,text} (all 8) x profession naming authority (same) x professionOids {none,1,2} x registrationNumber {none,set} x addProfessionInfo {none,!binary,!null,!empty,1000-byte !binary}, item sets incl. non-ASCII; plus 1..3 admissions x 1..3 profession infos with each of 22 single-member variants placed at every position against default neighbours, with two variants (8 x 8, a third of them in quick) at every ordered pair of positions using position-dependent values, 22 fully populated trees per shape, and every string-, OID- and list-valued member at 25 lengths around the 127/128 and 255/256 DER length-form boundaries. Each through a whole run; the value must equal the reference DER encoding of CommonPKI AdmissionSyntax (explicit [0]/[1] wrappers, IA5String url, UTF8String text/items, PrintableString registration number, OCTET STRING info, GeneralName tags [1]/[2]/[6]/[7]). non-trivial = distinct case; 12 registration numbers (every special character of the PrintableString repertoire; 8 values outside it, which must be refused or still be written as PrintableString)",
+		Rule:        "one admission x one profession info over the full product: top-level authority {none,ip,dns,mail,url} x admission authority (5) x admission naming authority subsets of {oid,url,text} (all 8) x profession naming authority (same) x professionOids {none,1,2} x registrationNumber {none,set} x addProfessionInfo {none,!binary,!null,!empty,1000-byte !binary}, item sets incl. non-ASCII; plus 1..3 admissions x 1..3 profession infos with each of 22 single-member variants placed at every position against default neighbours, with two variants (8 x 8, a third of them in quick) at every ordered pair of positions using position-dependent values, 22 fully populated trees per shape, and every string-, OID- and list-valued member at 25 lengths around the 127/128 and 255/256 DER length-form boundaries. Each through a whole run; the value must equal the reference DER encoding of CommonPKI AdmissionSyntax (explicit [0]/[1] wrappers, IA5String url, UTF8String text/items, PrintableString registration number, OCTET STRING info, GeneralName tags [1]/[2]/[6]/[7]). non-trivial = distinct case; 12 registration numbers (every special character of the PrintableString repertoire; 8 values outside it, which must be refused or still be written as PrintableString); one run over three entities whose admissions differ only in the GeneralName kind (dns, mail, url) of an authority carrying the same text",
 		Bound:       map[string]string{"admissions": "<=3", "profession infos": "<=3"},
 		Assumptions: []string{"an empty naming authority, an empty professionItems list and an empty professionOids list have no agreed encoding and are not in the alphabet"},
 		Budget:      budgets(quickBudget, thoroughBudget),
